@@ -788,6 +788,10 @@ def compass_sweep(res, tier):
                 got = [int(v) for v in f[2:]]
                 base = [int(d in (3, 1)), int(d in (0, 2)), int(d in (0, 1)), int(d in (3, 2))]
                 want = base + (base if d < 4 else [-1] * 4)
+            elif f[:1] == ['VSIGN'] and len(f) == 4:
+                d = int(f[1])
+                got = [float(f[2]), float(f[3])]
+                want = list({0: (1, 0), 4: (1, 1), 1: (0, 1), 5: (-1, 1), 2: (-1, 0), 6: (-1, -1), 3: (0, -1), 7: (1, -1)}[d])
             elif f[:1] == ['PAIR'] and len(f) == 5:
                 a, b = int(f[1]), int(f[2])
                 got = [int(f[3]), int(f[4])]
@@ -802,8 +806,8 @@ def compass_sweep(res, tier):
             res.violation({'what': 'a Compass direction predicate of the compiled library (ortho.h) differs from the statements of '
                                    'C14_card_predicates_algebra / C14_compass_predicates_on_cardinals / _on_diagonals',
                            'harness_line': ln, 'expected_fields': want, 'replay': '%s %d | grep "^%s"' % (exe, R, ' '.join(f[:3]))})
-    if npred != 24:
-        res.violation({'what': 'the Compass harness printed %d predicate lines instead of 24' % npred, 'stderr': err[-1500:]}, no_input=True)
+    if npred != 32:
+        res.violation({'what': 'the Compass harness printed %d predicate lines instead of 32' % npred, 'stderr': err[-1500:]}, no_input=True)
         bad += 1
     if rc != 0 or n != 9 * (2 * R + 1) ** 2:
         res.violation({'what': 'the Compass harness did not print the expected %d lines (rc=%s)' % (9 * (2 * R + 1) ** 2, rc),
@@ -1083,7 +1087,8 @@ META = {
                 'translated as a recorded precondition, proved equivalent to the hypothesis `distinct` (C14_compassDirection_returns_iff_distinct), and also checked by the lattice sweep (compiled functions vs the theorem statements on 9 x (2R+1)^2 pairs, R = 4 / 12), '
                 'which is also the search for a failing input when a Compass proof or translation breaks; the direction predicates of ortho.h (isHorizontal/Vertical/Increasing/Decreasing[Card], '
                 'sameDimension, arePerpendicular) are translated too: their algebra on the four cardinals, on the diagonals, and their meaning on a computed direction '
-                '(C14_card_predicates_algebra, C14_compass_predicates_on_cardinals, _on_diagonals, C14_cardinalDirection_predicates), swept exhaustively. '
+                '(C14_card_predicates_algebra, C14_compass_predicates_on_cardinals, _on_diagonals, C14_cardinalDirection_predicates), swept exhaustively; Compass::vectorSigns (a switch, translated as a chain of ifs) '
+                'of a computed compass direction is the pair of signs of (dx, dy) (C14_vectorSigns_of_compassDirection). '
                 'Oracle and padding: Proved in Coq, for all drawings and '
                 'all tolerance settings: the checker hola_ok is sound AND complete for the declaratively stated output conditions of doHOLA '
                 '(same node ids; same multiset of (source,target) edges; every node keeps its width and height; no two node rectangles have a '
